@@ -55,6 +55,9 @@ CHECKS = {
  "C11": ("exploration", "runtime monitor: round trips through the real json/unjson and msgpack/unmsgpack builtins with a structural equality walker; the JSON bytes judged by encoding/json (validity and denotation)",
          "Nested records, hashes, arrays and scalars with strings over every rune class and numbers at the 2^53 / 64-bit limits are built through the Go API, encoded and decoded by the real builtins and compared (numbers by value, type names, key order at every level); the emitted JSON text must be accepted by encoding/json and denote the same data; string-keyed hash literals are checked for well-formedness and denotation.",
          "Trusted: encoding/json as the standard decoder; the structural walker.", "DESIGN.md §4.C11"),
+ "C10": ("exploration", "runtime monitor: generated Go values -> record literal -> real converters (SexpToGoStructs, receiver/argument conversion of Go method calls, Echo round trip), compared by canonical rendering with pointer identity; negative cases must error",
+         "Random values of harness-registered struct types covering every supported field kind (three levels of embedding, shared records, interface-typed members) are written as record literals, converted by the real reflection code through the Go API and through Go method calls, compared with the generated value, sent through an identity method and converted again; records with one undeclared field or one wrong-kind value must make every conversion route report an error.",
+         "Trusted: the canonical renderer of the harness; time.Time is only checked in the record->Go direction (the way back is pinned to nil by the repository's own test).", "DESIGN.md §4.C10"),
 }
 
 NA_REASON = {}
